@@ -506,6 +506,145 @@ rc::Gen<Case> genFold() {
   });
 }
 
+
+// ---------------------------------------------------------------- sources mode (C07 b)
+std::string escapeWord(const std::string &w, int style) {
+  // style 0: backslash before every special; 1: single quotes; 2: double quotes (only when the word is not empty)
+  std::string r;
+  if (style == 0 || w.empty()) { for (char c : w) { if (c == ' ' || c == '\'' || c == '"' || c == '\\') r += '\\'; r += c; } return r; }
+  char q = style == 1 ? '\'' : '"';
+  r += q;
+  for (char c : w) { if (c == q || c == '\\') r += '\\'; r += c; }
+  r += q;
+  return r;
+}
+
+bool lineHasEmptyWord(const std::vector<std::string> &words) { for (auto &w : words) if (w.empty()) return true; return false; }
+
+rc::Gen<Case> genSources() {
+  return rc::gen::exec([]() {
+    Case c;
+    Profile pf = profileFor("valid");
+    pf.inertExtras = pick(50);
+    pf.minArgs = 3;
+    c.cfg = genConfig(pf);
+    if (c.cfg.args.empty()) { c.discarded = true; c.discardWhy = "no_args"; return c; }
+    Line base = genValidLine(c.cfg, pf);
+    if (base.size() < 2) { c.discarded = true; c.discardWhy = "line_too_short"; return c; }
+    if (evalModel(c.cfg, base).verdict != ModelResult::ACCEPT) { c.discarded = true; c.discardWhy = "line_not_valid"; return c; }
+    const bool viaArgument = pick(35);
+    const std::string envName = pick(50) ? "" : "MY_PROG_ARGS";
+    const std::string prog = oneOf(std::vector<std::string>{"prog", "/usr/local/bin/prog", "./p", "some/dir/tool7", "x"});
+    // evaluation order: file -> env -> argv with the program-argument file; env -> file -> argv when the file is named on argv
+    size_t n = base.size();
+    size_t i = *range<size_t>(0, n - 1), j = *range<size_t>(i, n - 1);
+    if (i == 0 && j == 0) j = 1;
+    const int first = viaArgument ? SRC_ENV : SRC_FILE, second = viaArgument ? SRC_FILE : SRC_ENV;
+    Line split = base;
+    for (size_t k = 0; k < n; ++k) split[k].source = k < i ? first : k < j ? second : SRC_ARGV;
+    auto build = [&](const Line &line, bool allOnArgv, Variant &v) -> bool {
+      SpellOptions so;
+      so.withArgFile = viaArgument && !allOnArgv;
+      std::vector<std::string> argvWords, envWords;
+      std::string file;
+      bool haveFile = false, haveEnv = false;
+      for (size_t k = 0; k < line.size();) {
+        int src = allOnArgv ? SRC_ARGV : line[k].source;
+        if (src == SRC_ARGV) {
+          // spell the whole argv part at once (flag groups may span uses)
+          Line part(line.begin() + static_cast<long>(k), line.end());
+          for (auto &u : part) if (!allOnArgv && u.source != SRC_ARGV) return false;
+          for (auto &w : spell(c.cfg, part, so)) argvWords.push_back(w);
+          break;
+        }
+        auto words = spell(c.cfg, Line{line[k]}, so);
+        if (lineHasEmptyWord(words)) return false;   // an empty word cannot be written in a file line / environment string
+        if (src == SRC_FILE) {
+          haveFile = true;
+          const bool atLineStart = file.empty() || file.back() == '\n';
+          if (atLineStart && pick(25)) file += pick(50) ? "# a comment line --input 5\n" : "\n";
+          for (size_t w = 0; w < words.size(); ++w) { if (w) file += std::string(static_cast<size_t>(*range<int>(1, 2)), ' '); file += escapeWord(words[w], *range<int>(0, 2)); }
+          // next use on the same line or on a new one
+          bool moreFile = k + 1 < line.size() && line[k + 1].source == SRC_FILE;
+          if (moreFile && pick(40)) file += " "; else file += "\n";
+        } else {
+          haveEnv = true;
+          for (auto &w : words) envWords.push_back(w);
+        }
+        ++k;
+      }
+      if (!file.empty() && file.back() != '\n') file += "\n";
+      v.in.argv = {prog};
+      for (auto &w : argvWords) v.in.argv.push_back(w);
+      v.in.haveFile = haveFile; v.in.fileBody = file; v.in.fileViaArgument = viaArgument;
+      v.in.haveEnv = haveEnv; v.in.envName = envName;
+      for (size_t w = 0; w < envWords.size(); ++w) { if (w) v.in.envBody += std::string(static_cast<size_t>(*range<int>(1, 2)), ' '); v.in.envBody += escapeWord(envWords[w], *range<int>(0, 2)); }
+      if (haveEnv && v.in.envBody.empty()) return false;
+      v.line = line;
+      if (allOnArgv) for (auto &u : v.line) u.source = SRC_ARGV;
+      return true;
+    };
+    Variant v0, v1;
+    v0.note = "all words on argv";
+    v1.note = std::string("split over ") + (viaArgument ? "env, --arg-file, argv" : "program-argument file, env, argv");
+    if (!build(split, true, v0) || !build(split, false, v1)) { c.discarded = true; c.discardWhy = "not_expressible_in_source"; return c; }
+    if (evalModel(c.cfg, v1.line).verdict != ModelResult::ACCEPT) { c.discarded = true; c.discardWhy = "split_line_not_valid"; return c; }
+    c.vars.push_back(v0);
+    c.vars.push_back(v1);
+    // override: a scalar given in a file/env source and again, with another value, on the real command line
+    {
+      const auto &sk = slotKinds();
+      std::vector<size_t> cands;
+      for (size_t k = j; k < n; ++k) if (isScalar(sk[c.cfg.args[split[k].arg].slot]) && c.cfg.args[split[k].arg].cardKind == CARD_DEFAULT) cands.push_back(k);
+      if (!cands.empty() && pick(70)) {
+        size_t k = oneOf(cands);
+        Line ov = split;
+        Use dup = split[k];
+        const ArgDef &a = c.cfg.args[dup.arg];
+        dup.elems = {genValidText(a, scalarValueType(sk[a.slot]), false)};
+        if (dup.elems[0].empty()) dup.elems[0] = "x";
+        dup.source = pick(50) ? first : second;
+        size_t at = dup.source == first ? *range<size_t>(0, i) : *range<size_t>(i, j);
+        ov.insert(ov.begin() + static_cast<long>(at), dup);
+        Variant v2;
+        v2.note = "override: value from a file/env source given again on argv";
+        if (evalModel(c.cfg, ov).verdict == ModelResult::ACCEPT && build(ov, false, v2)) c.vars.push_back(v2);
+      }
+    }
+    return c;
+  });
+}
+
+std::string runSources(const Case &c) {
+  auto &st = stats();
+  if (c.discarded) { st.cls("discarded." + c.discardWhy); return ""; }
+  classifyConfig(c.cfg);
+  std::map<int, Val> baseline;
+  for (size_t vi = 0; vi < c.vars.size(); ++vi) {
+    const Variant &v = c.vars[vi];
+    ModelResult m = evalModel(c.cfg, v.line);
+    if (m.verdict != ModelResult::ACCEPT) { st.cls("invalid_case.model_not_accept"); return ""; }
+    RealResult r = runReal(c.cfg, v.in);
+    std::string where = "variant " + std::to_string(vi) + " (" + v.note + ") argv " + argvText(v.in.argv) +
+                        (v.in.haveFile ? " file{" + v.in.fileBody + "}" : "") + (v.in.haveEnv ? " env{" + v.in.envBody + "}" : "") + ": ";
+    if (r.setupThrew) return where + "library refused the configuration: " + r.what;
+    if (r.threw) return where + "was rejected: " + r.what;
+    std::string d = compareStates(c.cfg, m.state, r.state);
+    if (!d.empty()) return where + d;
+    if (vi == 0) baseline = r.state;
+    else if (vi == 1) { std::string d2 = compareStates(c.cfg, baseline, r.state); if (!d2.empty()) return where + "differs from the same words given on argv: " + d2; }
+    if (v.in.haveFile) st.cls(v.in.fileViaArgument ? "source.arg_file" : "source.prog_arg_file");
+    if (v.in.haveEnv) st.cls(v.in.envName.empty() ? "source.env_default_name" : "source.env_named");
+    if (v.in.haveFile && v.in.fileBody.find('#') != std::string::npos) st.cls("source.file_comment_line");
+    if (vi == 2) st.cls("source.override");
+  }
+  const Variant &sp = c.vars[1];
+  bool nonArgv = sp.in.haveFile || sp.in.haveEnv, fromArgv = false;
+  for (auto &u : sp.line) if (u.source == SRC_ARGV) fromArgv = true;
+  if (nonArgv && fromArgv) stats().markNontrivial();
+  return "";
+}
+
 // non-trivial rule for the valid modes is evaluated from the case content
 void markValidNontrivial(const Case &c, const std::string &mode) {
   if (c.discarded || c.vars.empty()) return;
@@ -552,6 +691,8 @@ struct Init {
     }
     auto &f = addMode<Case>("fold");
     f.gen = genFold; f.run = runFold; f.show = showCase; f.parse = parseCase;
+    auto &so = addMode<Case>("sources");
+    so.gen = genSources; so.run = runSources; so.show = showCase; so.parse = parseCase;
     auto &b = addMode<Case>("break");
     b.gen = genBreak; b.run = runBreak; b.show = showCase; b.parse = parseCase;
   }
